@@ -102,6 +102,9 @@ Proof. intros H. apply lsum_pos; [apply smax_e_ne; exact H | apply smax_e_pos]. 
 Lemma softmax_length (x : list R) (beta : R) : length (act_softmax x beta) = length x.
 Proof. rewrite softmax_unfold. unfold smax_e. rewrite !map_length. reflexivity. Qed.
 
+Lemma softmax_default_beta : act_softmax_default_beta = 1.
+Proof. reflexivity. Qed.
+
 Lemma softmax_empty (beta : R) : act_softmax [] beta = [].
 Proof. reflexivity. Qed.
 
